@@ -85,8 +85,16 @@ def enterArgument (s : SchemaD) (name : String) (t : TI) : TI :=
   | none => { t with ivdStack := none :: t.ivdStack, inputStack := none :: t.inputStack }
 def leaveInputValue (t : TI) : TI := { t with inputStack := t.inputStack.drop 1, ivdStack := t.ivdStack.drop 1 }
 
+/-- `enter_list_value` (as of proposed_fixes/C06-enter-list-value.patch): the type expected of the ITEMS of a list
+    literal: one non-null wrapper and one list level removed; at a non-list position the (nullable) type of the
+    position is kept. (Before the fix: `unwrap_type`, the NAMED type whatever the nesting - ledger V8/V12.) -/
+def itemOf (t : Ty) : Ty :=
+  match (match t with | .nonNull x => x | x => x) with
+  | .list i => i
+  | x => x
+
 def enterListValue (s : SchemaD) (t : TI) : TI :=
-  let item : Option Ty := t.inputType.map fun x => Ty.named x.base
+  let item : Option Ty := t.inputType.map itemOf
   { t with inputStack := inOnly s item :: t.inputStack, ivdStack := none :: t.ivdStack }
 
 def enterObjectField (s : SchemaD) (name : String) (t : TI) : TI :=
